@@ -238,6 +238,7 @@ deriving DecidableEq
 
 inductive E where
   | col                               -- the VARIANT operand: a table column or PARSE_JSON('<doc>')
+  | fval                              -- `f.value` of a LATERAL FLATTEN in the same SELECT (evaluated per element)
   | lit (l : Lit)
   | jx (e : E) (p : PathLit)          -- exp.JSONExtract        DuckDB `->`
   | jxs (e : E) (p : PathLit)         -- exp.JSONExtractScalar  DuckDB `->>`
@@ -265,6 +266,7 @@ def topDown (r : E → Option E) (e : E) : E :=
   | none =>
     match e with
     | .col => .col
+    | .fval => .fval
     | .lit l => .lit l
     | .jx x p => .jx (topDown r x) p
     | .jxs x p => .jxs (topDown r x) p
@@ -298,6 +300,7 @@ def castAsVarchar : E → E
   | .cast (.jx x (.path p)) t => .cast (.jxs (castAsVarchar x) (.path p)) t
   | .cast x t => .cast (castAsVarchar x) t
   | .col => .col
+  | .fval => .fval
   | .lit l => .lit l
   | .jx x p => .jx (castAsVarchar x) p
   | .jxs x p => .jxs (castAsVarchar x) p
@@ -320,6 +323,7 @@ def casedAsVarchar : E → E
   | .upper x => .upper (casedAsVarchar x)
   | .lower x => .lower (casedAsVarchar x)
   | .col => .col
+  | .fval => .fval
   | .lit l => .lit l
   | .jx x p => .jx (casedAsVarchar x) p
   | .jxs x p => .jxs (casedAsVarchar x) p
@@ -345,9 +349,43 @@ def arraySizeRule : E → Option E
   | .arraySize x => some (.caseLen x)
   | _ => none
 
+/-- `flatten_value_cast_as_varchar` (transforms.py:505): `f.value::varchar` → `F.VALUE ->> '$'` -/
+def flattenValueRule : E → Option E
+  | .cast .fval .text => some (.jxs .fval (.path []))
+  | _ => none
+
+def E.hasFval : E → Bool
+  | .fval => true
+  | .col => false
+  | .lit _ => false
+  | .jx x _ => x.hasFval
+  | .jxs x _ => x.hasFval
+  | .bracket x _ => x.hasFval
+  | .paren x => x.hasFval
+  | .parseJson x => x.hasFval
+  | .cast x _ => x.hasFval
+  | .upper x => x.hasFval
+  | .lower x => x.hasFval
+  | .trim x => x.hasFval
+  | .arraySize x => x.hasFval
+  | .caseLen x => x.hasFval
+  | .bin _ a b => a.hasFval || b.hasFval
+  | .not x => x.hasFval
+  | .isNull x => x.hasFval
+
 /-- the JSON part of `cursor._transform`, in its order (cursor.py:171-176, 193) -/
 def pipeline (e : E) : E :=
   topDown arraySizeRule (topDown precRule (casedAsVarchar (castAsVarchar (topDown indicesRule (topDown trimRule e)))))
+
+/-- the pipeline including `flatten_value_cast_as_varchar`, which runs after `json_extract_precedence` (cursor.py).
+    On trees without `f.value` it is meant to coincide with `pipeline` (checked by the driver on every evaluated case,
+    not proved); the `Ctx` theorems are about `pipeline`. -/
+def pipelineAll (e : E) : E :=
+  topDown arraySizeRule (topDown flattenValueRule (topDown precRule (casedAsVarchar (castAsVarchar (topDown indicesRule (topDown trimRule e))))))
+
+/-- the same with `flatten_value_cast_as_varchar` moved AHEAD of `trim_cast_varchar` -/
+def pipelineFlattenEarly (e : E) : E :=
+  topDown arraySizeRule (topDown precRule (casedAsVarchar (castAsVarchar (topDown indicesRule (topDown trimRule (topDown flattenValueRule e))))))
 
 /-- the same with `trim_cast_varchar` moved AFTER `json_extract_cast_as_varchar` (for `C11_order`) -/
 def pipelineTrimLate (e : E) : E :=
@@ -559,6 +597,7 @@ def parseVal (pj : List Char → Option (Option Json)) : Val → Val
 
 def evalDuck (doc : Env) : E → Val
   | .col => .json doc.doc
+  | .fval => ofOpt (some doc.doc)          -- the element; a JSON null element is SQL NULL
   | .lit l => evalLit l
   | .jx x p => arrow (evalDuck doc x) p
   | .jxs x p => arrow2 (evalDuck doc x) p
@@ -629,6 +668,7 @@ def E.isJxs : E → Bool
     function arguments, CASE WHEN) admit anything. -/
 def PrecOKg (src : Bool) : E → Bool
   | .col => true
+  | .fval => true
   | .lit _ => true
   | .jx x _ => PrecOKg src x && decide ((if src then precPrimary else precArrow) ≤ x.level src x.isJxs)
   | .jxs x _ => PrecOKg src x && decide ((if src then precPrimary else precGeneric) ≤ x.level src x.isJx)
